@@ -181,6 +181,10 @@ def handle (j : Json) : Except String Json := do
     | .error _ => pure (outBool (a.cmp c (← fvOf b)))
   | "fv_str" => pure (okJ (strJ (← getFV j "v").str))
   | "fv_parse" => pure (outFV (parse (← getStr j "text").toList))
+  | "fv_match" =>
+    match matchFractionPart (← getStr j "text").toList with
+    | .ok _ => pure (okJ Json.null)
+    | .error e => pure (errJ e)
   | "fv_strparse" => pure (outFV (parse (← getFV j "v").str))
   | "cff" =>
     match ← getStr j "d" with
